@@ -218,6 +218,80 @@ func runC12(r *vk.Run) {
 			}
 		}
 	})
+	// nested: x/0, x%0 (NaN) and Inf as operands of every operator
+	r.Phase("nested", r.N(150, 20000), func(c *vk.Case) {
+		rng := c.Rng
+		steps := rng.Range(2, 4)
+		recs := genBinRecs(rng, steps, vk.Pick(rng, []string{"overlap", "overlap", "disjoint"}))
+		env := &MEnv{Recs: recs, Msg: env0.Msg, UnwrapKeeps: env0.UnwrapKeeps, CmpFalse: env0.CmpFalse, CmpFalseBool: env0.CmpFalseBool}
+		left, right := MExpr(c12Leaf("l|both")), MExpr(c12Leaf("r|both"))
+		mk := func(depth int) MExpr { return nil }
+		_ = mk
+		inner := func() MExpr {
+			switch rng.Intn(5) {
+			case 0:
+				return &Paren{X: &BinOp{Op: "/", L: left, R: &Lit{V: 0}}}
+			case 1:
+				return &Paren{X: &BinOp{Op: "%", L: left, R: &Lit{V: 0}}}
+			case 2:
+				return &Paren{X: &BinOp{Op: vk.Pick(rng, []string{"/", "%"}), L: left, R: right}} // NaN where the right value is 0
+			case 3:
+				return &Paren{X: &BinOp{Op: "^", L: &Lit{V: 10}, R: &Paren{X: &BinOp{Op: "*", L: left, R: &Lit{V: 400}}}}} // overflow to +Inf
+			default:
+				return &Paren{X: &BinOp{Op: vk.Pick(rng, c12Ops[:6]), L: left, R: &Lit{V: vk.Pick(rng, c12Scalars)}}}
+			}
+		}
+		op := vk.Pick(rng, c12Ops)
+		b := &BinOp{Op: op, Bool: isCmp(op) && rng.Bool()}
+		switch rng.Intn(4) {
+		case 0:
+			b.L, b.R = inner(), &Lit{V: vk.Pick(rng, c12Scalars)}
+		case 1:
+			b.L, b.R = &Lit{V: vk.Pick(rng, c12Scalars)}, inner()
+		case 2:
+			b.L, b.R = inner(), inner()
+		default:
+			b.L, b.R = inner(), left
+		}
+		text := b.Text()
+		p := EvalP{Start: metricT0 + 4e9, End: metricT0 + int64(steps)*4e9, Step: 4 * time.Second}
+		res, err := evalQuery(&MemQuerier{Recs: recs, ErrAfter: -1}, text, p)
+		c.Eval(1)
+		det := func() map[string]any { return map[string]any{"query": text, "records": recs, "params": p, "result": res} }
+		if err != nil {
+			c.Fail("", "query failed: "+text+": "+err.Error(), det())
+			return
+		}
+		var m string
+		if isCmp(op) {
+			m = compareComparison(b, env, p, res)
+		} else {
+			m = compareMetric(b, env, p, res, 1e-12)
+		}
+		if m != "" {
+			c.Fail("", text+": "+m, det())
+			return
+		}
+		nan := 0
+		for _, T := range gridTimes(p) {
+			for _, side := range []MExpr{b.L, b.R} {
+				if _, isLit := side.(*Lit); isLit {
+					continue
+				}
+				for _, s := range side.Eval(env, T).M {
+					if math.IsNaN(s.V) || math.IsInf(s.V, 0) {
+						nan++
+					}
+				}
+			}
+		}
+		c.Count("nested_nan_or_inf_operands", nan)
+		c.Count("nested_expressions", 1)
+		if nan > 0 {
+			c.Nontrivial(fmt.Sprintf("nested|%d|%s", c.Idx, text))
+		}
+	})
+	r.Require("nested_nan_or_inf_operands", 100)
 	r.Require("distinct:op_x_shape", int64(len(combos)))
 	r.Require("nan_results", 20)
 	r.Require("matched_series_points", 5000)
